@@ -10,11 +10,11 @@ use std::collections::BTreeMap;
 
 /// `dx` has `d` as a string prefix but is a different directory
 /// `http-6`: a note whose name starts like a url scheme (it is a note: there is no `://`)
-pub const KEYS: &[&str] = &["1", "2", "d/3", "d/4", "dx/5", "http-6"];
+pub const KEYS: &[&str] = &["1", "2", "d/3", "d/4", "dx/5", "http-6", "d/e/7"];
 
 pub const PLACEMENTS: &[&str] = &[
     "block-ref", "block-ref-h2", "inline-para", "heading", "item", "nested-item", "emphasis", "quote", "quote-ref", "after-table",
-    "inline-after-table", "table-cell", "item-2nd-para", "two-same", "strong-in-emphasis", "emphasis-in-strong",
+    "inline-after-table", "table-cell", "item-2nd-para", "two-same", "strong-in-emphasis", "emphasis-in-strong", "table-head",
 ];
 
 pub const KINDS: &[&str] = &["reg", "empty", "wiki", "wikip", "image", "same"];
@@ -35,6 +35,7 @@ pub fn place(p: &str, l: &str) -> String {
         "after-table" => format!("| a |\n|---|\n| b |\n\n{}\n", l),
         "inline-after-table" => format!("| a |\n|---|\n| b |\n\nx {}\n", l),
         "table-cell" => format!("| a |\n|---|\n| {} |\n", l),
+        "table-head" => format!("| {} | h |\n|---|---|\n| b | c |\n", l),
         "item-2nd-para" => format!("- a\n\n  {}\n\n  tail\n", l),
         "two-same" => format!("{}\n\n{}\n\nx {} y {}\n", l, l, l, l),
         _ => panic!("placement {}", p),
@@ -232,7 +233,7 @@ impl LibCase {
             if inline && url.contains('/') {
                 f.push("inline-link-with-path".into());
             }
-            if p == "table-cell" {
+            if p == "table-cell" || p == "table-head" {
                 f.push("link-in-table-cell".into());
             }
             if p.starts_with("quote") {
